@@ -29,6 +29,26 @@ CHECKS = {
    text="TLC checks grammar facts (every strict prefix of a valid encoding is short; negative sizes and unknown tags stay rejected; strict = lenient accounting below depth 64) exhaustively over short strings; hostile inputs (every cut point of every 11x11/11 container combination and of random values, structural bytes x boundary values, size fields x {7fffffff,80000000,ffffffff,...}, foreign and >=0x80 requested types, nesting 1..70 x {empty,scalar,string} bottoms, raw grammar-alphabet strings) are fed to all skippers; each (ok n | err) must lie in the admissible set {strict, lenient} computed by TLC, and a negative size must never be acted upon (no giant request to reader or pool).",
    note="Trusted: TLC, harness recorders, the shield reader/pool guard that refuse (and record) requests far beyond the input size. Inputs declaring > 1 MiB are not fed to ReaderSkipDecoder (it allocates what is declared). Bounds: MC MaxLen 5 (quick) / 6 (thorough); ~14k (quick) / ~150k (thorough) inputs.",
    design="6 C08, App. C"),
+ "C01": dict(
+   technique="TLA+ wire-format spec (ThriftWire Enc/Dec) checked by TLC + TLC-judged enc/dec traces of the 3 writers and 2 readers; Go sweep of all i32 against the certified lane rule",
+   text="TLC checks Dec o Enc = id, Enc o Dec = id and EncLen for all bool/i8/i16, every type byte, boundary-lane i32/i64/double/ids/sizes and strings at every buffer boundary. Every generated value (all i8, i16 boundary set (thorough: all 65536), lane-product and random i32, single-bit/byte-distinct/NaN/random i64 and double, strings 0..16, 4085..4101, 8181..8197, 64KiB classes, arbitrary bytes, every type byte x boundary ids, sizes up to 2^31-1) is written by the in-place, appending and stream writers and read back by the buffer reader and by the stream reader under five fragmentations; TLC compares each call with Enc/Dec, advertised length and consumption.",
+   note="Trusted: TLC, lane projection of 64-bit values (shifts), input-reference projection of decoded strings (bytes.Equal), recording sink/source. The 2^32 i32 sweep (thorough; quick: 1M stride sample) is applied in Go against the lane rule that MC_ThriftWire certifies - TLC cannot consume 2^32 events.",
+   design="6 C01"),
+ "C11": dict(
+   technique="TLA+ schema-driven struct reader/writer (FastStructs) checked by TLC + TLC-judged traces of BLength/FastWrite/FastRead",
+   text="TLC checks for Base/BaseResp/ApplicationException that every permutation of the known fields with up to two unknown or differently-typed fields (ids colliding with known ids) at every position and nil/empty/one-entry maps reads back to the value and consumes everything. Random values through BLength, FastWrite, FastWriteNocopy(nil), FastMarshal, FastRead, FastUnmarshal, and hand-built inputs with permuted/repeated known fields and unknown fields from the full typed-value generator, are judged against EncStruct/ReadStruct (unknown fields skipped with the ThriftSkip reference).",
+   note="Trusted: TLC, content-verified segment projection of strings. Maps with >= 2 entries are judged by parsing (Go map order is free). FastRead allocates the declared map count: inputs declaring > 65536 entries are not fed.",
+   design="6 C11"),
+ "C12": dict(
+   technique="TLA+ message-envelope spec (ThriftWire msgbegin + FastStructs) checked by TLC + TLC-judged traces",
+   text="TLC checks all 65536 first words for the strict-version rule, all 65536 message types and every truncation of a header. Headers written by the three writers and read by both readers under fragmentation, raw headers for every first word (thorough) and every cut point, and MarshalFastMsg/UnmarshalFastMsg round trips incl. EXCEPTION messages (error carries type id and text, caller's struct untouched), truncated and perturbed messages are judged by TLC.",
+   note="Trusted: as C01/C11. An empty method name in MarshalFastMsg is an allowed error.",
+   design="6 C12"),
+ "C15": dict(
+   technique="TLA+ splice rule for the no-copy writer (FastStructs/Trace_FastStructs) evaluated by TLC on recorded direct-writer calls",
+   text="For every combination of small/large strings (0,1,4095,4096,4097,8192,12288) in Base/BaseResp fields and map entries, FastWriteNocopy is run with a recording direct writer and with nil; TLC splices the recorded (piece, remainCap) pairs into the linear buffer at offset B - remainCap and requires equality with the copying encoding, remainCap >= len(piece), exactly the strings >= threshold written directly, and equal advertised lengths.",
+   note="Trusted: TLC, recording NocopyWriter, segment projection. Exhaustive over the length alphabet for Base's three strings (thorough) / a 2/3 subsample (quick).",
+   design="6 C15"),
 }
 NOT_YET = "check not built yet in this revision of /verif (work in progress; see DESIGN.md section 6 for the plan)"
 
